@@ -501,8 +501,8 @@ def writes_elem(a, n):
             b = c[1]
             if b[0] == "ue" and b[1] == n:
                 return True
-            if b[0] == "d" and b[3][1] == n and (b[3][0] == "e" or any(f in ("a", "A") for _, f in b[2])):
-                return True
+            if b[0] == "d" and b[3][1] == n and any(f in ("a", "A") for _, f in b[2]):
+                return True   # same class as Scope/ReadonlyProofs.v ro_safe
     return False
 
 
